@@ -702,6 +702,10 @@ func (r *rewriter) selectStmt(n *ast.SelectStmt) ast.Stmt {
 	sel := &ast.AssignStmt{Lhs: []ast.Expr{ast.NewIdent(iv), ast.NewIdent(vv), ast.NewIdent(okv)}, Tok: token.DEFINE,
 		Rhs: []ast.Expr{call(rt("Select"), append([]ast.Expr{ast.NewIdent(def)}, cases...)...)}}
 	use := &ast.AssignStmt{Lhs: []ast.Expr{ast.NewIdent("_"), ast.NewIdent("_")}, Tok: token.ASSIGN, Rhs: []ast.Expr{ast.NewIdent(vv), ast.NewIdent(okv)}}
+	// a select whose every case ends in a terminating statement is itself
+	// terminating; the switch that replaces it needs a default clause for that
+	// (never taken: Select returns the index of one of the cases above)
+	clauses = append(clauses, &ast.CaseClause{Body: []ast.Stmt{&ast.ExprStmt{X: call(ast.NewIdent("panic"), &ast.BasicLit{Kind: token.STRING, Value: `"verifrt: select returned an index that is not a case"`})}}})
 	sw := &ast.SwitchStmt{Tag: ast.NewIdent(iv), Body: &ast.BlockStmt{List: clauses}}
 	return &ast.BlockStmt{List: []ast.Stmt{sel, use, sw}}
 }
